@@ -215,9 +215,16 @@ def run(chk):
         first_long = st + chk.rng.randrange(2, 5)
         modes = [chk.rng.choice(shorts) if k < first_long else chk.rng.choice(longs + shorts) for k in range(npk + 1)]
         modes[first_long] = chk.rng.choice(longs)
-        if chk.rng.random() < 0.5:
+        v = chk.rng.random()
+        if v < 0.35:
             modes = [chk.rng.choice(longs) if k < first_long else chk.rng.choice(longs + shorts) for k in range(npk + 1)]
             modes[first_long] = chk.rng.choice(shorts)
+        elif v < 0.7:
+            # one block size only from the restart point on, the other one seen only before it (state that decoding one block size leaves
+            # behind for the other: the full decoder has it, the fresh one does not)
+            a, b2 = (shorts, longs) if chk.rng.random() < 0.6 else (longs, shorts)
+            modes = [chk.rng.choice(a + b2) if k < st else chk.rng.choice(b2) for k in range(npk + 1)]
+            modes[chk.rng.randrange(0, st)] = chk.rng.choice(a)
         full = C1.gen_case(chk.rng, 8000 + 2 * i, su, npk, modes=modes, jfix=1)
         pk = [o for o in full if o.startswith("pkt ")]
         head = [o for o in full if not o.startswith("pkt ")]
